@@ -72,7 +72,7 @@ func (s *State) runBlock(b, from *ssa.BasicBlock) {
 	for k, p := range phis {
 		s.env[p] = newVals[k]
 		if p.Comment != "" {
-			s.names[p.Comment] = nameBinding{p, false}
+			s.names[p.Comment] = nameBinding{V: p, IsAddr: false}
 			if p.Comment == "rangeindex" {
 				hasRange = true
 			}
@@ -85,7 +85,7 @@ func (s *State) runBlock(b, from *ssa.BasicBlock) {
 		if hasRange {
 			delete(s.names, "itercount")
 		} else if cp := countingPhi(phis); cp != nil {
-			s.names["itercount"] = nameBinding{cp, false}
+			s.names["itercount"] = nameBinding{V: cp, IsAddr: false}
 			delete(s.names, "rangeindex")
 		}
 	}
@@ -113,6 +113,13 @@ func (s *State) invCtx() *EvalCtx {
 
 func (s *State) enterLoop(b *ssa.BasicBlock, n int, phis []*ssa.Phi) {
 	c := s.c
+	// what a string builder / byte buffer holds is ghost state that a loop body may extend: forget it at the cut
+	for k := range s.ghost {
+		if strings.HasPrefix(k, "sbuilder|") || strings.HasPrefix(k, "buftext|") {
+			delete(s.ghost, k)
+			s.ghost["bufunknown|"+k] = Val{T: boolT, S: "true"}
+		}
+	}
 	var invs []Clause
 	var dec *Clause
 	if c.con != nil {
@@ -368,6 +375,16 @@ func (s *State) callResolved(site ssa.Instruction, cc *ssa.CallCommon, fnv Val, 
 	if fnv.Clo != nil {
 		callee = fnv.Clo.Fn
 		bindings = fnv.Clo.Bindings
+	}
+	if callee == nil {
+		// a local variable that holds one function literal for its whole life (`helper := func() {...}`, captured by
+		// other literals or not): the call goes to that literal
+		if mc := localClosureOf(cc.Value); mc != nil {
+			if v, ok := s.env[mc]; ok && v.Clo != nil {
+				callee = v.Clo.Fn
+				bindings = v.Clo.Bindings
+			}
+		}
 	}
 	if callee == nil {
 		// call through a function value: contract attached to the struct field / parameter it was read from
@@ -1118,6 +1135,10 @@ func (c *FnCtx) loopMods(h *ssa.BasicBlock) ([]string, bool) {
 			}
 			callee := cc.StaticCallee()
 			if callee == nil {
+				if mc := localClosureOf(cc.Value); mc != nil {
+					scanFn(mc.Fn.(*ssa.Function))
+					return
+				}
 				if key := c.eng.funcValueKey(cc.Value); key != "" {
 					if con, ok := c.eng.contracts.Funcs[key]; ok && len(con.Assigns) == 0 {
 						return
@@ -1403,10 +1424,13 @@ func (s *State) callSiteAssertsNamed(site ssa.Instruction, key string, names []s
 	if c.con == nil {
 		return
 	}
-	// the call must be in the function itself or in a closure nested in it
+	// the call must be in the function itself, in a closure nested in it, or in a helper without a contract of its
+	// own that is inlined here (code moved out of the function stays under the function's call-site clauses)
 	for _, f := range s.fnStack {
 		if topFn(f) != topFn(c.fn) {
-			return
+			if c.eng.contracts.Funcs[c.eng.fnKey(topFn(f))] != nil {
+				return
+			}
 		}
 	}
 	for i, ca := range c.con.CallSites {
@@ -1466,4 +1490,97 @@ func countingPhi(phis []*ssa.Phi) *ssa.Phi {
 		}
 	}
 	return found
+}
+
+// allocOf resolves an address operand to the local variable (Alloc) it denotes, following captured variables
+// (FreeVar) to the MakeClosure that binds them; nil when it is not a plain local.
+func allocOf(v ssa.Value) *ssa.Alloc {
+	for depth := 0; depth < 8; depth++ {
+		switch x := v.(type) {
+		case *ssa.Alloc:
+			return x
+		case *ssa.FreeVar:
+			g := x.Parent()
+			if g == nil || g.Parent() == nil {
+				return nil
+			}
+			idx := -1
+			for i, fv := range g.FreeVars {
+				if fv == x {
+					idx = i
+				}
+			}
+			var mc *ssa.MakeClosure
+			n := 0
+			for _, b := range g.Parent().Blocks {
+				for _, in := range b.Instrs {
+					if m, ok := in.(*ssa.MakeClosure); ok && m.Fn == ssa.Value(g) {
+						mc = m
+						n++
+					}
+				}
+			}
+			if mc == nil || n != 1 || idx < 0 || idx >= len(mc.Bindings) {
+				return nil
+			}
+			v = mc.Bindings[idx]
+		default:
+			return nil
+		}
+	}
+	return nil
+}
+
+// localClosureOf: v is a load from a local variable of function type that is assigned exactly once in the whole
+// nest of functions, and what is assigned is a function literal: that literal's MakeClosure. Otherwise nil.
+func localClosureOf(v ssa.Value) *ssa.MakeClosure {
+	ld, ok := v.(*ssa.UnOp)
+	if !ok || ld.Op != token.MUL {
+		return nil
+	}
+	al := allocOf(ld.X)
+	if al == nil || al.Parent() == nil {
+		return nil
+	}
+	var stored ssa.Value
+	stores := 0
+	escapes := false
+	var walk func(f *ssa.Function)
+	walk = func(f *ssa.Function) {
+		for _, b := range f.Blocks {
+			for _, in := range b.Instrs {
+				switch x := in.(type) {
+				case *ssa.Store:
+					if allocOf(x.Addr) == al {
+						stores++
+						stored = x.Val
+					} else if a, isAddr := x.Val.(*ssa.Alloc); isAddr && a == al {
+						escapes = true
+					}
+				case *ssa.UnOp, *ssa.MakeClosure, *ssa.DebugRef:
+				default:
+					// the address handed to anything else (a call, a field, an interface): someone else may write it
+					for _, op := range in.Operands(nil) {
+						if op != nil && *op != nil {
+							if a, isAddr := (*op).(*ssa.Alloc); isAddr && a == al {
+								escapes = true
+							}
+							if fv, isFV := (*op).(*ssa.FreeVar); isFV && allocOf(fv) == al {
+								escapes = true
+							}
+						}
+					}
+				}
+			}
+		}
+		for _, an := range f.AnonFuncs {
+			walk(an)
+		}
+	}
+	walk(al.Parent())
+	if stores != 1 || escapes {
+		return nil
+	}
+	mc, _ := stored.(*ssa.MakeClosure)
+	return mc
 }
